@@ -74,7 +74,19 @@ func famRelay(w *World) {
 	}
 	tombs := uint64([]int{0, 0, 1, 1, 2, 4}[scn(6)])
 	verify := scnChance(1, 3)
-	t := w.buildRelayTopo(nc, ns, hops, w.connOpts, func(o *NodeOpts) {
+	// cancellation as a way for a relayed call to end: callers that send cancel frames,
+	// hops that pass them on (or not)
+	sendCancel := scnChance(1, 3)
+	t := w.buildRelayTopoConn(nc, ns, hops, func() tchannel.ConnectionOptions {
+		co := w.connOpts()
+		co.SendCancelOnContextCanceled = sendCancel
+		co.PropagateCancel = sendCancel && scnChance(1, 2)
+		return co
+	}, func() tchannel.ConnectionOptions {
+		co := w.connOpts()
+		co.PropagateCancel = sendCancel && scnChance(2, 3)
+		return co
+	}, func(o *NodeOpts) {
 		o.RelayMaxTimeout = maxTO
 		o.RelayMaxTombs = tombs
 		o.RelayTimerVerify = verify
@@ -95,7 +107,7 @@ func famRelay(w *World) {
 			t.spies[0].Downstream = append(t.spies[0].Downstream, rn.Name)
 		}
 	}
-	w.describe("relay hops=%d clients=%d servers=%d faulty=%v maxTimeout=%v tombs=%d verify=%v appends=%d", hops, nc, ns, faulty, maxTO, tombs, verify, len(appends))
+	w.describe("relay hops=%d clients=%d servers=%d faulty=%v maxTimeout=%v tombs=%d verify=%v appends=%d sendCancel=%v", hops, nc, ns, faulty, maxTO, tombs, verify, len(appends), sendCancel)
 
 	maxTimeout := time.Duration(0)
 	ntasks := 1 + scn(4)
@@ -164,13 +176,25 @@ func famRelay(w *World) {
 			if faulty && scnChance(1, 5) {
 				s.CancelAfter = time.Duration(scn(40)) * w.Grid
 			}
+			if sendCancel && scnChance(1, 2) {
+				// the caller's cancel frame races the callee's last frame at the relay
+				if scnChance(1, 2) {
+					s.CancelOnResponse = 1 + scn(3)
+				} else {
+					s.CancelAfter = s.Delay + time.Duration(scnPick(0, 0, 0, 0, -1, 1, 2, 3))*w.Grid
+					if s.CancelAfter <= 0 {
+						s.CancelAfter = w.Grid
+					}
+				}
+				w.probe("relay.cancel-race-planned")
+			}
 			if s.Timeout > maxTimeout {
 				maxTimeout = s.Timeout
 			}
 			r := w.newCall(s)
 			recs = append(recs, r)
 			w.describe("call %s %s->%s via %s fmt=%v mode=%s timeout=%v a2=%d a3=%d rs=%d/%d wp=%d rp=%d delay=%v cancel=%v", r.Spec.Tag, from.Name, to.Name, s.Via, thrift, s.Mode, s.Timeout, s.Pad2, s.Len3, s.Rs2, s.Rs3, s.WritePat, s.ReadPat, s.Delay, s.CancelAfter)
-			if !faulty && scnChance(1, 2) && s.CancelAfter == 0 {
+			if !faulty && scnChance(1, 2) && s.CancelAfter == 0 && s.CancelOnResponse == 0 {
 				// differential twin: the same call made directly
 				d := s
 				d.Tag = ""
@@ -243,7 +267,7 @@ func famRelay(w *World) {
 // call (C08: the caller receives what the destination produced for ITS call;
 // C04: frames for an id concern that call only).
 func (w *World) checkSlowDropTarget(r *CallRec, t *relayTopo) {
-	if r.Err == nil || len(t.relays) != 1 || r.Cancelled || r.Spec.CancelAfter > 0 || r.Appended || !strings.HasPrefix(r.Spec.Via, "relay") {
+	if r.Err == nil || len(t.relays) != 1 || r.Cancelled || r.Spec.CancelAfter > 0 || r.Spec.CancelOnResponse > 0 || r.Appended || !strings.HasPrefix(r.Spec.Via, "relay") {
 		return
 	}
 	if !strings.Contains(tchannel.GetSystemErrorMessage(r.Err), "relay-dest-conn-slow") {
